@@ -24,9 +24,7 @@ pub fn gen(seed: u64, tier: Tier) -> ScenarioSpec {
         // Biased to the tail of the file (a buffered writer that forgets to flush fails there).
         spec.sink.enospc_after = Some(if rng.chance(2, 3) { (len as u64).saturating_sub(1 + rng.below(64)) } else { rng.below(len.max(1) as u64) });
     }
-    if rng.chance(1, 10) {
-        spec.knobs.insert("prelude".into(), 2);
-    }
+    spec.knobs.insert("prelude".into(), gen_prelude(&mut rng, &[2, 4, 5], 5));
     spec
 }
 
